@@ -313,7 +313,7 @@ func genForge(r *kit.Rng) (*forgeSpec, valSpec) {
 }
 
 var rawStrings = []string{
-	"", "a", ".", "..", "...", "a.b", "a.b.c", "a.b.c.d", "e30.e30.", "e30..", "e30.e30", "e30.e30.e30", ".e30.", "..e30",
+	"", "", " ", "\t", "\n", "\r\n", " \t\r\n\v\f", "\u0085", "\u00a0", "\u2028", "\u3000", "  ", "a", ".", "..", "...", "a.b", "a.b.c", "a.b.c.d", "e30.e30.", "e30..", "e30.e30", "e30.e30.e30", ".e30.", "..e30",
 	"eyJhbGciOiJIUzI1NiJ9.e30.", "eyJhbGciOiJIUzI1NiJ9..", "eyJhbGciOiJub25lIn0.e30.", "bnVsbA.bnVsbA.", "bnVsbA.e30.AAAA",
 	"Bearer abc", "\xff\xfe.\x00.\x01", "e30 .e30.", "e30\n.e30.", "=.=.=", "e30.W10.", "e30.eyJhdWQiOjF9.",
 	"e30.eyJhdWQiOiJ4In0.", "e30.eyJhdWQiOiJ4IiwiRHVyYXRpb24iOjF9.", "e30.eyJhdWQiOiJ4IiwiRHVyYXRpb24iOiIxIn0.",
@@ -352,6 +352,14 @@ func genCase(r *kit.Rng, i int) (*caseSpec, error) {
 		return &caseSpec{Issue: is, Val: genVal(r, is, true)}, nil
 	case 3, 4, 5: // byte-level mutations of issued tokens
 		is := genIssue(r)
+		if r.Chance(1, 6) { // white space around a genuine principal token, through Authenticate as well
+			is.PType, is.PVar = "principal", kit.Pick(r, []int{1, 3, 0, 8})
+			v := valSpec{Key: is.Key, App: is.App, PType: "principal", Now: is.T0}
+			if is.Dur < 2*sec {
+				is.Dur = 600 * sec
+			}
+			return &caseSpec{Issue: is, Mut: &mutSpec{Op: "padends", Pos: r.Intn(3), Arg: r.Intn(len(whitespace))}, Val: v}, nil
+		}
 		tok, err := issueOnly(is)
 		if err != nil {
 			return nil, err
